@@ -8,6 +8,8 @@ import (
 	"sort"
 	"strings"
 
+	"github.com/boltdb/bolt"
+
 	"github.com/AliyunContainerService/terway/pkg/storage"
 	"github.com/AliyunContainerService/terway/types/daemon"
 )
@@ -108,7 +110,21 @@ func (w *World) recoverFromCrash() bool {
 				}
 				sort.Strings(want)
 				if strings.Join(owned, ",") != strings.Join(want, ",") {
-					w.run.Violate("C05", "durability", "acknowledged-add-not-owned-after-restart", "pod %s had ADD acknowledged with %v; after kill at %q and restart the pool shows it owning %v", p.spec.Name, want, w.crashWhat, owned)
+					fp := "acknowledged-add-not-owned-after-restart"
+					for _, q := range w.pods {
+						if q == p {
+							continue
+						}
+						if r, ok := recs[q]; ok && r.ok {
+							for _, x := range r.rec.Resources {
+								if (x.IPv4 != "" && x.IPv4 == p.ackV4) || (x.IPv6 != "" && x.IPv6 == p.ackV6) {
+									// a record another pod left behind (its DEL released the pool but failed to delete the record) names the same address
+									fp = "acknowledged-add-not-owned-after-restart@address-claimed-by-stale-record"
+								}
+							}
+						}
+					}
+					w.run.Violate("C05", "durability", fp, "pod %s had ADD acknowledged with %v; after kill at %q and restart the pool shows it owning %v", p.spec.Name, want, w.crashWhat, owned)
 				}
 			}
 		}
@@ -159,6 +175,20 @@ func (w *World) mirrorOracle() {
 	for _, o := range l2 {
 		r := o.(daemon.PodResources)
 		inMem[keyOf(r)] = describeRec(r)
+	}
+	if os.Getenv("VERIF_DEBUG_DISK") != "" {
+		if ys, ok := w.resDB.(*yieldStorage); ok {
+			live := storage.BoltDBForSim(ys.inner)
+			_ = live.View(func(tx *bolt.Tx) error {
+				w.run.S.Log("disk", "live txid=%d path=%s", tx.ID(), live.Path())
+				return tx.Bucket([]byte("relation")).ForEach(func(k, v []byte) error { w.run.S.Log("disk", "live key %s", k); return nil })
+			})
+			fdb := storage.BoltDBForSim(fresh)
+			_ = fdb.View(func(tx *bolt.Tx) error {
+				w.run.S.Log("disk", "fresh txid=%d path=%s", tx.ID(), fdb.Path())
+				return nil
+			})
+		}
 	}
 	if fmt.Sprint(onDisk) != fmt.Sprint(inMem) {
 		w.run.Violate("C05", "durability", "mirror-differs-from-disk", "in-memory records %v differ from a fresh read of the file %v", inMem, onDisk)
